@@ -9,6 +9,8 @@ for d in otlptrace/otlptracegrpc otlpmetric/otlpmetricgrpc otlplog/otlploggrpc; 
   dst=contracts/go.opentelemetry.io/otel/exporters/otlp/$d
   mkdir -p $dst && sed "s/PKGNAME/$(basename $d)/" templates/grpcclient.contract > $dst/verif_contracts.go
 done
+# the log gRPC exporter keeps its configuration resolvers in the client package itself (C20)
+cat templates/logconf_grpc.contract >> contracts/go.opentelemetry.io/otel/exporters/otlp/otlplog/otlploggrpc/verif_contracts.go
 for d in otlplog/otlploghttp otlplog/otlploggrpc; do
   dst=contracts/go.opentelemetry.io/otel/exporters/otlp/$d/internal/transform
   mkdir -p $dst && cp templates/logtransform.contract $dst/verif_contracts.go
